@@ -156,13 +156,13 @@ released; routing state for the abandoned ID is gone; a caller still waiting on 
 operation is released with an error (its reply slot is no longer empty: last clause). -/
 theorem C13_abandon (s : St) (i : Nat) (rest : List Nat) (o : Op) (t : Nat) (hr : s.drv = .running)
     (hq : s.opQ = i :: rest) (ho : s.ops[i]? = some o) (hk : o.kind = .abandon (t : Int))
-    (hin : s.inUse.contains o.id = true) :
+    (hin : s.inUse.contains o.id = true) (hsk : s.sinkClosed = false) :
     ∃ s', step s (.drvOp true) = some (s', .none) ∧
       s'.wire = s.wire ++ [(o.id, .abandon (t : Int))] ∧ t ∉ s'.inUse ∧ o.id ∉ s'.inUse ∧
       lookup s'.resultmap t = none ∧ lookup s'.searchmap t = none ∧
       (∀ j, lookup s.resultmap t = some j → j ≠ i → ∀ oj : Op, s'.ops[j]? = some oj → oj.mail ≠ .empty) := by
   have hne : (s.drv ≠ .running) = False := by simp [hr]
-  simp only [step, hne, if_false, hq, ho, hk, hin, Bool.not_true, Bool.false_eq_true]
+  simp only [step, hne, if_false, hq, ho, hk, hin, hsk, Bool.not_true, Bool.false_eq_true]
   refine ⟨_, rfl, by simp, not_mem_eraseId _ _, ?_, lookup_erase_self _ _, lookup_erase_self _ _, ?_⟩
   · intro hmem
     have := (mem_eraseId.mp hmem).1
@@ -182,7 +182,7 @@ original sender is not travelling in the op queue) — so, by `C04_closed_channe
 `Acct`/`RouteInv` hold in every reachable state (`C13_abandon_releases_stream_nowrap`). -/
 theorem C13_abandon_releases_stream (s : St) (ha : Acct s) (hri : RouteInv s) (i : Nat) (rest : List Nat) (o : Op) (t c : Nat)
     (hr : s.drv = .running) (hq : s.opQ = i :: rest) (ho : s.ops[i]? = some o) (hk : o.kind = .abandon (t : Int))
-    (hin : s.inUse.contains o.id = true) (hmem : (t, c) ∈ s.searchmap) :
+    (hin : s.inUse.contains o.id = true) (hmem : (t, c) ∈ s.searchmap) (hsk : s.sinkClosed = false) :
     ∃ s', step s (.drvOp true) = some (s', .none) ∧ chanOpen s' c = false ∧ s'.chans = s.chans ∧
       ∀ (ch : Chan) (dl : Option Nat), s.chans[c]? = some ch →
         (s.ops[ch.opIdx]?.bind (·.res)) = some .ack →      -- the stream exists: `start()` returned Ok
@@ -190,7 +190,7 @@ theorem C13_abandon_releases_stream (s : St) (ha : Acct s) (hri : RouteInv s) (i
         (∀ it, ch.items[ch.taken]? = some it →
           step s' (.recv c dl) = some ({ s' with chans := s'.chans.set c { ch with taken := ch.taken + 1 } }, .item (some it))) ∧
         (ch.items[ch.taken]? = none → step s' (.recv c dl) = some (s', .closed)) := by
-  obtain ⟨s', hs, hclosed, hc, hres, _⟩ := drvOp_abandon_closes s ha hri i rest o t c hr hq ho hk hin hmem
+  obtain ⟨s', hs, hclosed, hc, hres, _⟩ := drvOp_abandon_closes s ha hri i rest o t c hr hq ho hk hin hmem hsk
   refine ⟨s', hs, hclosed, hc, fun ch dl hch hack hrx => ?_⟩
   exact C04_closed_channel_ends s' c ch dl (by rw [hc]; exact hch) (resKeep_bind hres _ _ hack) hrx hclosed
 
@@ -199,7 +199,8 @@ theorem C13_abandon_releases_stream_nowrap (N : Nat) (evs : List Ev) (hcount : a
     (i : Nat) (rest : List Nat) (o : Op) (t c : Nat)
     (hr : (run (init N) evs).drv = .running) (hq : (run (init N) evs).opQ = i :: rest)
     (ho : (run (init N) evs).ops[i]? = some o) (hk : o.kind = .abandon (t : Int))
-    (hin : (run (init N) evs).inUse.contains o.id = true) (hmem : (t, c) ∈ (run (init N) evs).searchmap) :
+    (hin : (run (init N) evs).inUse.contains o.id = true) (hmem : (t, c) ∈ (run (init N) evs).searchmap)
+    (hsk : (run (init N) evs).sinkClosed = false) :
     ∃ s', step (run (init N) evs) (.drvOp true) = some (s', .none) ∧ chanOpen s' c = false ∧
       s'.chans = (run (init N) evs).chans ∧
       ∀ (ch : Chan) (dl : Option Nat), (run (init N) evs).chans[c]? = some ch →
@@ -207,14 +208,14 @@ theorem C13_abandon_releases_stream_nowrap (N : Nat) (evs : List Ev) (hcount : a
         (∀ it, ch.items[ch.taken]? = some it →
           step s' (.recv c dl) = some ({ s' with chans := s'.chans.set c { ch with taken := ch.taken + 1 } }, .item (some it))) ∧
         (ch.items[ch.taken]? = none → step s' (.recv c dl) = some (s', .closed)) :=
-  C13_abandon_releases_stream _ (Acct.run N evs (freshRun_init N evs hcount)) (RouteInv.run N evs) i rest o t c hr hq ho hk hin hmem
+  C13_abandon_releases_stream _ (Acct.run N evs (freshRun_init N evs hcount)) (RouteInv.run N evs) i rest o t c hr hq ho hk hin hmem hsk
 
 /-- … read to the end: after the Abandon of a search has been handled, the `k`-th following `next()` of its
 stream returns the `k`-th item that was still queued, in order, and the one after the last returns
 `EndOfStream` (`closed`) — the stream never pends again. -/
 theorem C13_abandoned_stream_drains (s : St) (ha : Acct s) (hri : RouteInv s) (i : Nat) (rest : List Nat) (o : Op) (t c : Nat)
     (hr : s.drv = .running) (hq : s.opQ = i :: rest) (ho : s.ops[i]? = some o) (hk : o.kind = .abandon (t : Int))
-    (hin : s.inUse.contains o.id = true) (hmem : (t, c) ∈ s.searchmap)
+    (hin : s.inUse.contains o.id = true) (hmem : (t, c) ∈ s.searchmap) (hsk : s.sinkClosed = false)
     (ch : Chan) (dl : Option Nat) (hc : s.chans[c]? = some ch) (hack : (s.ops[ch.opIdx]?.bind (·.res)) = some .ack)
     (hrx : ch.rxAlive = true) :
     ∃ s', step s (.drvOp true) = some (s', .none) ∧
@@ -222,7 +223,7 @@ theorem C13_abandoned_stream_drains (s : St) (ha : Acct s) (hri : RouteInv s) (i
         ∃ s'', step (run s' (List.replicate k (.recv c dl))) (.recv c dl) = some (s'', .item (some it))) ∧
       step (run s' (List.replicate (ch.items.length - ch.taken) (.recv c dl))) (.recv c dl) =
         some (run s' (List.replicate (ch.items.length - ch.taken) (.recv c dl)), .closed) := by
-  obtain ⟨s', hs, hclosed, hcs, hres, _⟩ := drvOp_abandon_closes s ha hri i rest o t c hr hq ho hk hin hmem
+  obtain ⟨s', hs, hclosed, hcs, hres, _⟩ := drvOp_abandon_closes s ha hri i rest o t c hr hq ho hk hin hmem hsk
   exact ⟨s', hs, closed_channel_drains s' c ch dl (by rw [hcs]; exact hc) (resKeep_bind hres _ _ hack) hrx hclosed⟩
 
 /-- A stream dropped without `finish()` is collected at the next frame routed to it: when a search
